@@ -21,6 +21,7 @@
 #include <map>
 #include <set>
 #include <unistd.h>
+#include <algorithm>
 #include "hproto.hpp"
 
 typedef std::vector<std::string> toks_t;
@@ -132,9 +133,16 @@ static std::string errClass(const std::string &msg) {
   return "other";
 }
 
+static std::vector<std::string> writtenPaths;
+
 int main() {
   return hp::run(
-    []() { seenKey.clear(); seenDir.clear(); haveCfg = false; },
+    []() {
+      seenKey.clear(); seenDir.clear(); haveCfg = false;
+      // `hashfile` only looks at files written in this history (the model starts every history empty;
+      // files are NOT removed here: C07 shares them between processes)
+      writtenPaths.clear();
+    },
     [](const toks_t &t) -> std::string {
       if (t.empty()) return "bad-op";
       try {
@@ -183,6 +191,7 @@ int main() {
           std::ofstream f(p.c_str(), std::ios::binary | std::ios::trunc);
           f << txt;
           f.close();
+          writtenPaths.push_back(p);
           return f.good() ? "ok" : "io-error";
         }
         if (t[0] == "hashfile" && t.size() == 2) {
@@ -190,6 +199,7 @@ int main() {
           // within the same second as the previous write (same length included)
           std::string p;
           if (!hp::unhex(t[1], p)) return "bad-op";
+          if (std::find(writtenPaths.begin(), writtenPaths.end(), p) == writtenPaths.end()) return "missing";
           std::ifstream in(p.c_str(), std::ios::binary);
           if (!in) return "missing";
           std::stringstream cur; cur << in.rdbuf();
@@ -201,6 +211,7 @@ int main() {
           std::string p;
           if (!hp::unhex(t[1], p)) return "bad-op";
           ::unlink(p.c_str());
+          writtenPaths.erase(std::remove(writtenPaths.begin(), writtenPaths.end(), p), writtenPaths.end());
           return "ok";
         }
         if (t[0] == "build" && t.size() == 1) {
